@@ -129,9 +129,15 @@ pub fn run(ctx: &mut Ctx) {
         " lead".into(), ":colon".into(), "data: nested".into(), "event: fake\n\ninjected".into(), "é€\u{10348}".into(), "tab\tq\"uote\\".into(),
         "a".repeat(65520), "a".repeat(65521), "a".repeat(65522), "a".repeat(65528), "a".repeat(70000), "l\n".repeat(9000),
     ];
+    // encoded block sizes at the chunk-size digit boundaries: `data: ` + d + LF has 7 + |d| bytes (16, 256, 4096, 65528 and neighbours)
+    let mut contents = contents;
+    for block in [15usize, 16, 17, 255, 256, 257, 4095, 4096, 4097, 65527, 65528] {
+        contents.push("b".repeat(block - 7));
+    }
     for c in &contents {
         go!(&format!("s0:{};p;d0;p", ev(c)));
         go!(&format!("s0:{};s0:{};p;d0;p", evc("upd", c), ev("after")));
+        if c.len() > 5 && c.len() < 5000 { go!(&format!("s0:{};p;s0:{};p;d0;p", ev(c), ev("after"))); }
     }
     for t in ["t", "", "a b", ":x", "é"] {
         go!(&format!("s0:{};p;d0;p", evc(t, "d")));
